@@ -483,8 +483,8 @@ def scbk_ok(g):
     return True
 
 
-def utd_mode(p):
-    return p // 2 + (N_SO // 2 if p % 2 else 0)
+def utd_mode(p, n_so=N_SO):
+    return p // 2 + (n_so // 2 if p % 2 else 0)
 
 
 def ferm_inputs(case):
@@ -507,7 +507,7 @@ def call_ferm(case, reverse_time_dict=False):
         time = {lad: t for lad, _, t in (lads[::-1] if reverse_time_dict else lads)}
     else:
         time = lads[0][2]
-    opts = {"qubit_mapping": case["mapping"], "up_then_down": case["utd"], "n_spinorbitals": N_SO, "n_electrons": 2}
+    opts = {"qubit_mapping": case["mapping"], "up_then_down": case["utd"], "n_spinorbitals": case.get("n_so", N_SO), "n_electrons": 2}
     return AU.trotterize(fop, time=time, n_trotter_steps=case["steps"], trotter_order=case["order"],
                          mapping_options=opts, control=case["control"], return_phase=True)
 
@@ -517,7 +517,8 @@ _FQ = {}
 
 def ferm_reference(case):
     """Qubit image (ordered (word, coef) list, from the code's mapping) and dense reference H of sum_j c_j t_j F_j."""
-    key = (repr(case["gens"]), case["mapping"], case["utd"])
+    n_so = case.get("n_so", N_SO)
+    key = (repr(case["gens"]), case["mapping"], case["utd"], n_so)
     v = _FQ.get(key)
     if v is not None:
         return v
@@ -527,18 +528,18 @@ def ferm_reference(case):
     ftot = FermionOperator()
     for lad, c, t in lads:
         ftot += FermionOperator(lad, c * t)
-    qop = fermion_to_qubit_mapping(ftot, case["mapping"], n_spinorbitals=N_SO, n_electrons=2, up_then_down=case["utd"])
+    qop = fermion_to_qubit_mapping(ftot, case["mapping"], n_spinorbitals=n_so, n_electrons=2, up_then_down=case["utd"])
     qterms = []
     for w, c in qop.terms.items():
         if abs(np.imag(c)) > 1e-12:
             raise RuntimeError(f"harness: Hermitian fermionic input mapped to a complex coefficient {c} for {w}")
         qterms.append((tuple(w), float(np.real(c))))
-    nq = N_SO - 2 if case["mapping"].upper() == "SCBK" else N_SO
+    nq = n_so - 2 if case["mapping"].upper() == "SCBK" else n_so
     Hq = TR.op_dense(qterms, nq)
     Hf = None
     if case["mapping"].upper() == "JW":
-        rel = (lambda p: utd_mode(p)) if case["utd"] else (lambda p: p)
-        Hf = TR.fermion_dense([(tuple((rel(p), a) for p, a in lad), c * t) for lad, c, t in lads], N_SO)
+        rel = (lambda p: utd_mode(p, n_so)) if case["utd"] else (lambda p: p)
+        Hf = TR.fermion_dense([(tuple((rel(p), a) for p, a in lad), c * t) for lad, c, t in lads], n_so)
     if len(_FQ) > 500:
         _FQ.clear()
     v = _FQ[key] = (qterms, Hq, Hf, nq)
@@ -832,15 +833,24 @@ def expand(sec, skel, tier, a):
                 yield {"kind": "pw", "word": shift(word, s), "coef": coef, "control": ctl, "variational": True}
                 if name in ("none", "one"):
                     yield {"kind": "pw", "word": shift(word, s), "coef": coef, "control": ctl, "variational": False}
+                if len(word) >= 2 and name in ("none", "one", "two_rev", "int0"):
+                    # the same word with its factors listed in another order (a Pauli word is a set of (qubit, letter) factors)
+                    w = [list(f) for f in shift(word, s)]
+                    yield {"kind": "pw", "word": w[::-1], "coef": coef, "control": ctl, "variational": True, "listing": "reversed"}
+                    if len(w) == 3:
+                        yield {"kind": "pw", "word": [w[1], w[2], w[0]], "coef": coef, "control": ctl, "variational": True,
+                               "listing": "rotated"}
         return
     if sec == "ferm":
         G = generators()
         gens = [G[i] for i in skel]
         k = len(gens)
-        for mapping in ("JW", "BK", "scBK", "JKMN"):
+        for mapping, n_so in [(m_, n_) for m_ in ("JW", "BK", "scBK", "JKMN") for n_ in (N_SO, N_SO + 2)]:
             if mapping == "scBK" and not all(scbk_ok(g) for g in gens):
                 continue
-            nq = N_SO - 2 if mapping == "scBK" else N_SO
+            # the same generators inside a larger register (n_spinorbitals = 6): the operator does not touch the highest orbitals,
+            # and the two register sizes alternate within one process (anything remembered from the other size would show)
+            nq = n_so - 2 if mapping == "scBK" else n_so
             for utd in (False, True):
                 if k == 1:
                     settings = [([c], [t], td) for c in C[:2] for t in T for td in (False, True)]
@@ -851,13 +861,17 @@ def expand(sec, skel, tier, a):
                                 ([C[0], C[0]], [-0.3, 1.0], True)]
                     if q:
                         settings = settings[:2]
+                if n_so != N_SO:
+                    settings = settings[:1] if q else settings[:2]
                 for cs, ts, td in settings:
-                    for order in (1, 2):
-                        for steps in (1, 2):
+                    for order in ((1, 2) if n_so == N_SO else (1,)):
+                        for steps in ((1, 2) if n_so == N_SO else (2,)):
                             ctls = [None, [nq], [nq, nq + 1]] if k == 1 else [None, [nq + 1, nq]]
+                            if n_so != N_SO:
+                                ctls = [None, [nq]] if (k == 1 and nq + 1 <= MAXQ) else [None]
                             for ctl in ctls:
                                 yield {"kind": "ferm", "gens": [[g, c, t] for g, c, t in zip(gens, cs, ts)], "tdict": td,
-                                       "mapping": mapping, "utd": utd, "order": order, "steps": steps, "control": ctl}
+                                       "mapping": mapping, "utd": utd, "order": order, "steps": steps, "control": ctl, "n_so": n_so}
         return
     words, nq = words_of(skel, None)
     k = len(words)
